@@ -76,7 +76,7 @@ def ops_for(nslots):
             ('new', i, None), ('new-attrs', i, None),
             ('parse', i, 0), ('parse', i, 1), ('parse', i, 2),
             ('parse', i, 3), ('mut-unknown-options', i, None),
-            ('mut-meta-intkeys', i, None),
+            ('mut-meta-intkeys', i, None), ('copy-sections', i, None),
             ('add-change', i, None), ('add-change-attrs', i, None),
             ('add-file', i, None), ('add-file-big', i, None),
             ('mut-meta', i, None), ('mut-meta-nested', i, None),
@@ -95,7 +95,19 @@ def ops_for(nslots):
     return ops
 
 
-OBSERVERS = {'to-bytes', 'write-shared', 'repr', 'iterate', 'eq'}
+OBSERVERS = {'to-bytes', 'write-shared', 'repr', 'iterate', 'eq',
+             'copy-sections'}
+
+
+def _edit_deep(o):
+    if isinstance(o, dict):
+        for k in list(o):
+            _edit_deep(o[k])
+        o['edited-in-copy'] = 1
+    elif isinstance(o, list):
+        for x in o:
+            _edit_deep(x)
+        o.append('edited-in-copy')
 
 
 def enabled(world, op):
@@ -146,6 +158,34 @@ def apply(world, op):
         t.meta['x'] = 'y'
     elif name == 'mut-meta-nested':
         t.meta['k'].append('w')
+    elif name == 'copy-sections':
+        # copy.deepcopy of the sections that support it (file, meta and
+        # preamble sections); the copies are then edited at every depth and
+        # analysed: an observer of the tree as far as the tree is concerned
+        import copy as _copy
+        targets = [t.meta_section, t.preamble_section]
+        if _last_file(t) is not None:
+            targets += [_last_file(t), _last_file(t).meta_section]
+        if _last_change(t) is not None:
+            targets.append(_last_change(t).meta_section)
+        for sec in targets:
+            try:
+                c = _copy.deepcopy(sec)
+            except Exception:
+                continue
+            m = getattr(c, 'meta', None)
+            if m is None and isinstance(getattr(c, '_content', None), dict):
+                m = c._content
+            if isinstance(m, dict):
+                _edit_deep(m)
+                m['copied'] = True
+            try:
+                c.options['copied'] = 1
+                if hasattr(c, 'generate_stats'):
+                    c.generate_stats()
+            except Exception:
+                pass
+        return ('copied', len(targets))
     elif name == 'mut-meta-intkeys':
         # keys json writes as strings ("1", "2.5"): whatever serialising
         # does with them, the tree keeps the caller's objects
